@@ -261,8 +261,14 @@ static uint64_t get_next_mclk_timestamp(void)
 static uint64_t mclk_lookup(uint32_t avtp_time)
 {
     uint64_t mclk_timestamp = get_next_mclk_timestamp();
+    /* The media clock takes a given 32 bit time value at most once while it
+     * advances by 2^32 ns. A presentation time that is not met within one
+     * such cycle (an AAF stream that is not locked to the media clock) is
+     * never met: give up instead of searching forever.
+     */
+    uint64_t tries = (1ULL << 32) / MCLK_PERIOD + 1;
 
-    while (mclk_timestamp % (1ULL << 32) != avtp_time)
+    while (mclk_timestamp % (1ULL << 32) != avtp_time && tries-- > 0)
         mclk_timestamp = get_next_mclk_timestamp();
 
     return mclk_timestamp;
